@@ -2,14 +2,19 @@ package props
 
 import (
 	"bytes"
+	"encoding/json"
 	"errors"
 	"fmt"
 	"io"
 	"math/rand"
+	"os"
+	"regexp"
 	"sort"
 	"strconv"
 	"strings"
 	"sync"
+	"sync/atomic"
+	"time"
 
 	"github.com/parquet-go/parquet-go"
 
@@ -39,7 +44,11 @@ type c09Case struct {
 	Dedupe  bool
 	Path    string // rows | readers | write | copyrows
 	Pattern string
+	Lists   bool  // repeated payload column sorting before the keys
+	Seeks   []int // path rows: forward seeks (distance in rows) interleaved with the reads
 
+	seekOut []c09Pos
+	seekEOF int
 	planReq string // request for the Lean mirror of the planner (set by c09Run)
 }
 
@@ -70,7 +79,7 @@ func (c *c09Case) canon() string {
 	for _, col := range c.Cols {
 		fmt.Fprintf(&sb, "col(opt=%v,desc=%v,nf=%v) ", col.Opt, col.Desc, col.NF)
 	}
-	fmt.Fprintf(&sb, "mcols=%d storage=%s pagebuf=%d batches=%v dedupe=%v path=%s inputs=", c.MCols, c.Storage, c.PageBuf, c.Batches, c.Dedupe, c.Path)
+	fmt.Fprintf(&sb, "mcols=%d storage=%s pagebuf=%d batches=%v dedupe=%v path=%s lists=%v seeks=%v inputs=", c.MCols, c.Storage, c.PageBuf, c.Batches, c.Dedupe, c.Path, c.Lists, c.Seeks)
 	for i, in := range c.Inputs {
 		if i > 0 {
 			sb.WriteByte('/')
@@ -125,8 +134,15 @@ func c09Cmp(cols []c09Col, n int, a, b c09Row) int {
 
 // ---------------------------------------------------------------- parquet plumbing
 
-func c09Schema(cols []c09Col) *parquet.Schema {
+func c09Schema(cols []c09Col) *parquet.Schema { return c09SchemaL(cols, false) }
+
+// lists = true adds a repeated payload column "a_list" that sorts before the key columns by name
+// (the merged schema orders fields by name): 0..4 values per row, derived from the hidden payload
+func c09SchemaL(cols []c09Col, lists bool) *parquet.Schema {
 	g := parquet.Group{"x_inp": parquet.Int(32), "y_seq": parquet.Int(32)}
+	if lists {
+		g["a_list"] = parquet.Repeated(parquet.Int(32))
+	}
 	for j, col := range cols {
 		var n parquet.Node = parquet.Int(64)
 		if col.Opt {
@@ -135,6 +151,23 @@ func c09Schema(cols []c09Col) *parquet.Schema {
 		g["k"+strconv.Itoa(j)] = n
 	}
 	return parquet.NewSchema("c09", g)
+}
+
+// the list payload of row (inp, seq): values chosen so that ordering rows by a list element would
+// contradict the key order
+func c09List(inp, seq int32) []int32 {
+	n := int((inp*7 + seq*3) % 5)
+	if n < 0 {
+		n = -n
+	}
+	out := make([]int32, n)
+	for i := range out {
+		out[i] = (seq*31+inp*17+int32(i)*13)%100 - 50
+		if i%2 == 1 {
+			out[i] = -out[i] - seq%7
+		}
+	}
+	return out
 }
 
 func c09Sorting(cols []c09Col, n int) []parquet.SortingColumn {
@@ -154,33 +187,62 @@ func c09Sorting(cols []c09Col, n int) []parquet.SortingColumn {
 	return out
 }
 
-func c09ToRow(cols []c09Col, r c09Row) parquet.Row {
-	row := make(parquet.Row, 0, len(cols)+2)
+func c09ToRow(cols []c09Col, r c09Row) parquet.Row { return c09ToRowL(cols, r, false) }
+
+func c09ToRowL(cols []c09Col, r c09Row, lists bool) parquet.Row {
+	row := make(parquet.Row, 0, len(cols)+7)
+	off := 0
+	if lists {
+		off = 1
+		l := c09List(r.Inp, r.Seq)
+		if len(l) == 0 {
+			row = append(row, parquet.Value{}.Level(0, 0, 0))
+		}
+		for i, v := range l {
+			rep := 1
+			if i == 0 {
+				rep = 0
+			}
+			row = append(row, parquet.Int32Value(v).Level(rep, 1, 0))
+		}
+	}
 	for j, col := range cols {
 		switch {
 		case !col.Opt:
-			row = append(row, parquet.Int64Value(r.K[j]).Level(0, 0, j))
+			row = append(row, parquet.Int64Value(r.K[j]).Level(0, 0, j+off))
 		case r.Null[j]:
-			row = append(row, parquet.Value{}.Level(0, 0, j))
+			row = append(row, parquet.Value{}.Level(0, 0, j+off))
 		default:
-			row = append(row, parquet.Int64Value(r.K[j]).Level(0, 1, j))
+			row = append(row, parquet.Int64Value(r.K[j]).Level(0, 1, j+off))
 		}
 	}
-	row = append(row, parquet.Int32Value(r.Inp).Level(0, 0, len(cols)))
-	row = append(row, parquet.Int32Value(r.Seq).Level(0, 0, len(cols)+1))
+	row = append(row, parquet.Int32Value(r.Inp).Level(0, 0, len(cols)+off))
+	row = append(row, parquet.Int32Value(r.Seq).Level(0, 0, len(cols)+1+off))
 	return row
 }
 
-func c09FromRow(ncols int, row parquet.Row) (c09Row, error) {
+func c09FromRow(ncols int, row parquet.Row) (c09Row, error) { return c09FromRowL(ncols, row, false) }
+
+func c09FromRowL(ncols int, row parquet.Row, lists bool) (c09Row, error) {
 	var r c09Row
-	if len(row) != ncols+2 {
+	off := 0
+	var list []int32
+	if lists {
+		off = 1
+	} else if len(row) != ncols+2 {
 		return r, fmt.Errorf("row has %d values, want %d", len(row), ncols+2)
 	}
+	seen := 0
 	for _, v := range row {
-		c := v.Column()
+		c := v.Column() - off
 		switch {
+		case lists && c == -1:
+			if !v.IsNull() {
+				list = append(list, v.Int32())
+			}
+			continue
 		case c < 0 || c >= ncols+2:
-			return r, fmt.Errorf("value with column index %d", c)
+			return r, fmt.Errorf("value with column index %d", v.Column())
 		case c < ncols:
 			if v.IsNull() {
 				r.Null[c] = true
@@ -192,6 +254,13 @@ func c09FromRow(ncols int, row parquet.Row) (c09Row, error) {
 		default:
 			r.Seq = v.Int32()
 		}
+		seen++
+	}
+	if seen != ncols+2 {
+		return r, fmt.Errorf("row has %d non-list values, want %d", seen, ncols+2)
+	}
+	if lists && fmt.Sprint(list) != fmt.Sprint(c09List(r.Inp, r.Seq)) {
+		return r, fmt.Errorf("list payload of row (%d,%d) altered: %v, written %v", r.Inp, r.Seq, list, c09List(r.Inp, r.Seq))
 	}
 	return r, nil
 }
@@ -233,7 +302,7 @@ func c09RowGroup(c *c09Case, schema *parquet.Schema, in []c09Row, asFile bool) (
 	sorting := c09Sorting(c.Cols, len(c.Cols))
 	rows := make([]parquet.Row, len(in))
 	for i, r := range in {
-		rows[i] = c09ToRow(c.Cols, r)
+		rows[i] = c09ToRowL(c.Cols, r, c.Lists)
 	}
 	if !asFile || len(in) == 0 {
 		b := parquet.NewBuffer(schema, parquet.SortingRowGroupConfig(parquet.SortingColumns(sorting...)))
@@ -279,7 +348,7 @@ func c09Drain(c *c09Case, rr parquet.RowReader, limit int) ([]c09Row, [][2]int, 
 			return out, calls, fmt.Errorf("ReadRows returned n=%d for a buffer of %d", n, b)
 		}
 		for _, row := range buf[:n] {
-			r, derr := c09FromRow(len(c.Cols), row)
+			r, derr := c09FromRowL(len(c.Cols), row, c.Lists)
 			if derr != nil {
 				return out, calls, derr
 			}
@@ -295,6 +364,149 @@ func c09Drain(c *c09Case, rr parquet.RowReader, limit int) ([]c09Row, [][2]int, 
 			return out, calls, errors.New("no progress: ReadRows keeps returning without io.EOF")
 		}
 	}
+}
+
+type c09Pos struct {
+	at  int // absolute index in the merged sequence
+	row c09Row
+}
+
+var c09SeekHung atomic.Bool
+
+// read with forward seeks: one batch, SeekToRow(pos+d) (twice in a row when d%5 == 0), ... then to the
+// end. Runs under a timeout: a ReadRows that never returns is reported, later seek cases are skipped.
+func c09DrainSeek(c *c09Case, rows parquet.Rows, limit int) (out []c09Pos, eofAt int, calls [][2]int, err error) {
+	type res struct {
+		out   []c09Pos
+		eofAt int
+		calls [][2]int
+		err   error
+	}
+	done := make(chan res, 1)
+	go func() {
+		var r res
+		defer func() {
+			if p := recover(); p != nil {
+				r.err = fmt.Errorf("panic: %v", p)
+			}
+			done <- r
+		}()
+		maxb := 1
+		for _, b := range c.Batches {
+			maxb = max(maxb, b)
+		}
+		buf := make([]parquet.Row, maxb)
+		pos := 0
+		seeks := append([]int(nil), c.Seeks...)
+		for i := 0; ; i++ {
+			b := c.Batches[i%len(c.Batches)]
+			n, e := rows.ReadRows(buf[:b])
+			r.calls = append(r.calls, [2]int{b, n})
+			if n < 0 || n > b {
+				r.err = fmt.Errorf("ReadRows returned n=%d for a buffer of %d", n, b)
+				return
+			}
+			for _, row := range buf[:n] {
+				rw, derr := c09FromRowL(len(c.Cols), row, c.Lists)
+				if derr != nil {
+					r.err = derr
+					return
+				}
+				r.out = append(r.out, c09Pos{pos, rw})
+				pos++
+			}
+			if e == io.EOF {
+				r.eofAt = pos
+				return
+			}
+			if e != nil {
+				r.err = e
+				return
+			}
+			if len(seeks) > 0 {
+				d := seeks[0]
+				seeks = seeks[1:]
+				if e := rows.SeekToRow(int64(pos + d)); e != nil {
+					if errors.Is(e, io.EOF) { // seeking to or past the end may already report the end
+						r.eofAt = pos + d
+						return
+					}
+					r.err = fmt.Errorf("SeekToRow(%d) from %d: %w", pos+d, pos, e)
+					return
+				}
+				pos += d
+				if d%5 == 0 {
+					if e := rows.SeekToRow(int64(pos + 2)); e != nil {
+						if errors.Is(e, io.EOF) {
+							r.eofAt = pos + 2
+							return
+						}
+						r.err = fmt.Errorf("SeekToRow(%d) from %d: %w", pos+2, pos, e)
+						return
+					}
+					pos += 2
+				}
+			}
+			if len(r.calls) > 3*limit+16 {
+				r.err = errors.New("no progress: ReadRows keeps returning without io.EOF")
+				return
+			}
+		}
+	}()
+	select {
+	case r := <-done:
+		return r.out, r.eofAt, r.calls, r.err
+	case <-time.After(20 * time.Second):
+		c09SeekHung.Store(true)
+		return nil, 0, nil, errors.New("hang: ReadRows after SeekToRow did not return within 20s")
+	}
+}
+
+// oracle of a read with seeks: the row delivered at absolute index p carries the p-th sort key of the
+// merged sequence (the key sequence is determined even where the order of equal-key rows is not),
+// rows are genuine, not repeated, in per-input order, and io.EOF comes at the end of the sequence
+func c09SeekOracle(c *c09Case, out []c09Pos, eofAt int) (key, what string) {
+	n := c.sortCols()
+	var all []c09Row
+	for _, in := range c.Inputs {
+		all = append(all, in...)
+	}
+	sort.SliceStable(all, func(a, b int) bool { return c09Cmp(c.Cols, n, all[a], all[b]) < 0 })
+	if c.Dedupe {
+		var d []c09Row
+		for i, r := range all {
+			if i == 0 || c09Cmp(c.Cols, n, all[i-1], r) != 0 {
+				d = append(d, r)
+			}
+		}
+		all = d
+	}
+	seen := map[[2]int32]bool{}
+	last := map[int32]int32{}
+	for _, p := range out {
+		r := p.row
+		if int(r.Inp) < 0 || int(r.Inp) >= len(c.Inputs) || int(r.Seq) < 0 || int(r.Seq) >= len(c.Inputs[r.Inp]) || c.Inputs[r.Inp][r.Seq] != r {
+			return "seek-foreign-row", fmt.Sprintf("row at index %d (payload %d,%d, key %s) is not an input row", p.at, r.Inp, r.Seq, r.keyText(len(c.Cols)))
+		}
+		if seen[[2]int32{r.Inp, r.Seq}] {
+			return "seek-duplicated-row", fmt.Sprintf("input %d row %d delivered twice", r.Inp, r.Seq)
+		}
+		seen[[2]int32{r.Inp, r.Seq}] = true
+		if l, ok := last[r.Inp]; ok && r.Seq <= l {
+			return "seek-per-input-order", fmt.Sprintf("input %d: row %d after row %d", r.Inp, r.Seq, l)
+		}
+		last[r.Inp] = r.Seq
+		if p.at >= len(all) {
+			return "seek-rows-past-the-end", fmt.Sprintf("a row is delivered at index %d, the merged sequence has %d rows", p.at, len(all))
+		}
+		if c09Cmp(c.Cols, n, all[p.at], r) != 0 {
+			return "seek-wrong-position", fmt.Sprintf("row delivered at index %d has key %s, the merged sequence has key %s there", p.at, r.keyText(n), all[p.at].keyText(n))
+		}
+	}
+	if eofAt < len(all) {
+		return "seek-early-eof", fmt.Sprintf("io.EOF at index %d, the merged sequence has %d rows", eofAt, len(all))
+	}
+	return "", ""
 }
 
 // run one case on the real library, returns the emitted rows
@@ -330,7 +542,7 @@ var c09StrictCuts = sync.OnceValue(func() string {
 })
 
 // page statistics of the sorting columns of a row group, in the format of the driver's merge.plan
-func c09TargetText(rg parquet.RowGroup, ncols int) (string, bool) {
+func c09TargetText(rg parquet.RowGroup, ncols int, off int) (string, bool) {
 	var sb strings.Builder
 	fmt.Fprintf(&sb, "%d", rg.NumRows())
 	if rg.NumRows() == 0 {
@@ -344,7 +556,7 @@ func c09TargetText(rg parquet.RowGroup, ncols int) (string, bool) {
 		return strconv.FormatInt(v.Int64(), 10)
 	}
 	for j := 0; j < ncols; j++ {
-		ci, err := chunks[j].ColumnIndex()
+		ci, err := chunks[j+off].ColumnIndex()
 		if err != nil || ci == nil {
 			return "", false
 		}
@@ -369,7 +581,7 @@ func c09TargetText(rg parquet.RowGroup, ncols int) (string, bool) {
 			}
 		}
 		if j == 0 {
-			if oi, err := chunks[0].OffsetIndex(); err == nil && oi != nil {
+			if oi, err := chunks[off].OffsetIndex(); err == nil && oi != nil {
 				sb.WriteString("~F")
 				if oi.NumPages() == 0 {
 					sb.WriteByte('-')
@@ -392,7 +604,7 @@ func c09Run(c *c09Case) (out []c09Row, kind string, calls [][2]int, plan string,
 			err = fmt.Errorf("panic: %v", p)
 		}
 	}()
-	schema := c09Schema(c.Cols)
+	schema := c09SchemaL(c.Cols, c.Lists)
 	total := 0
 	rgs := make([]parquet.RowGroup, len(c.Inputs))
 	for i, in := range c.Inputs {
@@ -410,7 +622,11 @@ func c09Run(c *c09Case) (out []c09Row, kind string, calls [][2]int, plan string,
 		parts := make([]string, len(rgs))
 		ok := true
 		for i, rg := range rgs {
-			parts[i], ok = c09TargetText(rg, c.sortCols())
+			off := 0
+			if c.Lists {
+				off = 1
+			}
+			parts[i], ok = c09TargetText(rg, c.sortCols(), off)
 			if !ok {
 				break
 			}
@@ -463,6 +679,13 @@ func c09Run(c *c09Case) (out []c09Row, kind string, calls [][2]int, plan string,
 	case "rows":
 		rows := merged.Rows()
 		defer rows.Close()
+		if len(c.Seeks) > 0 {
+			c.seekOut, c.seekEOF, calls, err = c09DrainSeek(c, rows, total)
+			for _, p := range c.seekOut {
+				out = append(out, p.row)
+			}
+			return out, kind, calls, plan, err
+		}
 		out, calls, err = c09Drain(c, rows, total)
 		return out, kind, calls, plan, err
 	case "write", "copyrows":
@@ -671,8 +894,19 @@ func c09Check(ctx *core.Ctx, c *c09Case, p *c09Pending) {
 			}
 		})
 	}
+	if err != nil && strings.HasPrefix(err.Error(), "hang:") {
+		ctx.Fail("L1", "seek-forward-beyond-buffer-hangs plan="+kind, "SeekToRow forward by more than the read buffer, then ReadRows: "+err.Error(), detail())
+		return
+	}
 	if err != nil {
 		ctx.Fail("L1", "error "+c09ErrClass(err)+sig, "merge fails: "+err.Error(), detail())
+		return
+	}
+	if len(c.Seeks) > 0 {
+		ctx.Hist("seeks", strconv.Itoa(len(c.Seeks)))
+		if key, what := c09SeekOracle(c, c.seekOut, c.seekEOF); key != "" {
+			ctx.Fail("L1", key+" plan="+kind, what, detail())
+		}
 		return
 	}
 	if key, what := c09Oracle(c, out); key != "" {
@@ -834,7 +1068,33 @@ func c09GenCase(r *rand.Rand) *c09Case {
 		nullRate = []int{2, 4, 10, 40}[r.Intn(4)]
 	}
 	c.Inputs = c09GenInputs(r, c.Cols, k, c.Pattern, lens, nullRate)
+	c.Lists = r.Intn(3) == 0
+	c09GenSeeks(r, c)
 	return c
+}
+
+// forward seeks for the rows path: farther than the read buffer, short, to the end, repeated
+func c09GenSeeks(r *rand.Rand, c *c09Case) {
+	if c.Path != "rows" || r.Intn(4) != 0 || c09SeekHung.Load() {
+		return
+	}
+	maxb, total := 1, 0
+	for _, b := range c.Batches {
+		maxb = max(maxb, b)
+	}
+	for _, in := range c.Inputs {
+		total += len(in)
+	}
+	for n := 1 + r.Intn(3); n > 0; n-- {
+		switch r.Intn(4) {
+		case 0:
+			c.Seeks = append(c.Seeks, r.Intn(4))
+		case 1:
+			c.Seeks = append(c.Seeks, total+r.Intn(3)) // to or past the end
+		default:
+			c.Seeks = append(c.Seeks, maxb+1+r.Intn(2*maxb+5)) // farther than the buffer
+		}
+	}
 }
 
 // large inputs with long lone stretches and small pages: the refinement planner slices them
@@ -899,6 +1159,8 @@ func c09GenRefineCase(r *rand.Rand) *c09Case {
 		inputs[i] = rows
 	}
 	c.Inputs = inputs
+	c.Lists = r.Intn(3) == 0
+	c09GenSeeks(r, c)
 	return c
 }
 
@@ -974,6 +1236,8 @@ func c09GenCompoundRefineCase(r *rand.Rand) *c09Case {
 		}
 	}
 	c.Inputs = inputs
+	c.Lists = r.Intn(3) == 0
+	c09GenSeeks(r, c)
 	return c
 }
 
@@ -1228,6 +1492,7 @@ func c09SpecText(cols []c09Col) string {
 }
 
 type c09L2CCase struct {
+	lists   bool
 	cols    []c09Col
 	inputs  [][]c09Row
 	refills [][]int
@@ -1236,12 +1501,12 @@ type c09L2CCase struct {
 
 func (c *c09L2CCase) text() string {
 	n := len(c.cols)
-	return fmt.Sprintf("specs=%s opt=%v inputs=%s refills=%s batches=%v", c09SpecText(c.cols), c.cols,
+	return fmt.Sprintf("specs=%s opt=%v lists=%v inputs=%s refills=%s batches=%v", c09SpecText(c.cols), c.cols, c.lists,
 		c09Lists(c.inputs, func(r c09Row) string { return r.keyText(n) }), c09Lists(c.refills, strconv.Itoa), c.batches)
 }
 
 func c09GenL2C(r *rand.Rand) *c09L2CCase {
-	c := &c09L2CCase{}
+	c := &c09L2CCase{lists: r.Intn(2) == 0}
 	ncols := 1 + r.Intn(3)
 	for j := 0; j < ncols; j++ {
 		col := c09Col{Desc: r.Intn(3) == 0}
@@ -1279,14 +1544,14 @@ func c09L2CCheck(ctx *core.Ctx, c *c09L2CCase, p *c09Pending) {
 				err = fmt.Errorf("panic: %v", q)
 			}
 		}()
-		schema := c09Schema(c.cols)
+		schema := c09SchemaL(c.cols, c.lists)
 		cmp := schema.Comparator(c09Sorting(c.cols, len(c.cols))...)
 		readers := make([]parquet.RowReader, len(c.inputs))
 		total := 0
 		for i, in := range c.inputs {
 			rs := make([]parquet.Row, len(in))
 			for j, row := range in {
-				rs[j] = c09ToRow(c.cols, row)
+				rs[j] = c09ToRowL(c.cols, row, c.lists)
 			}
 			readers[i] = &c09ChunkReader{rows: rs, sizes: append([]int(nil), c.refills[i]...)}
 			total += len(in)
@@ -1309,7 +1574,7 @@ func c09L2CCheck(ctx *core.Ctx, c *c09L2CCase, p *c09Pending) {
 				sb.WriteByte('-')
 			}
 			for j, row := range buf[:max(n, 0)] {
-				rw, derr := c09FromRow(len(c.cols), row)
+				rw, derr := c09FromRowL(len(c.cols), row, c.lists)
 				if derr != nil {
 					return derr
 				}
@@ -1380,9 +1645,11 @@ func c09CmpChecks(ctx *core.Ctx, r *rand.Rand, d *drv.Driver, p *c09Pending, n i
 			return row
 		}
 		a, b := mk(), mk()
-		schema := c09Schema(cols)
+		lists := r.Intn(2) == 0
+		a.Inp, a.Seq, b.Inp, b.Seq = int32(r.Intn(9)), int32(r.Intn(50)), int32(r.Intn(9)), int32(r.Intn(50))
+		schema := c09SchemaL(cols, lists)
 		cmp := schema.Comparator(c09Sorting(cols, ncols)...)
-		got := cmp(c09ToRow(cols, a), c09ToRow(cols, b))
+		got := cmp(c09ToRowL(cols, a, lists), c09ToRowL(cols, b, lists))
 		sign := func(x int) int {
 			if x < 0 {
 				return -1
@@ -1392,9 +1659,9 @@ func c09CmpChecks(ctx *core.Ctx, r *rand.Rand, d *drv.Driver, p *c09Pending, n i
 			return 0
 		}
 		canon := fmt.Sprintf("merge.cmp %s %s %s", c09SpecText(cols), a.keyText(ncols), b.keyText(ncols))
-		ctx.Case(canon+fmt.Sprint(cols), ncols >= 2)
+		ctx.Case(canon+fmt.Sprint(cols, lists, a.Inp, a.Seq, b.Inp, b.Seq), ncols >= 2)
 		if want := c09Cmp(cols, ncols, a, b); sign(got) != want {
-			ctx.Fail("L1", "comparator-order", "schema.Comparator orders two rows against the declared sorting columns", map[string]any{"case": canon, "cols": fmt.Sprint(cols), "impl": got, "declared": want})
+			ctx.Fail("L1", fmt.Sprintf("comparator-order lists=%v", lists), "schema.Comparator orders two rows against the declared sorting columns", map[string]any{"case": canon, "cols": fmt.Sprint(cols), "lists": lists, "list-a": fmt.Sprint(c09List(a.Inp, a.Seq)), "list-b": fmt.Sprint(c09List(b.Inp, b.Seq)), "impl": got, "declared": want})
 		}
 		p.reqs = append(p.reqs, canon)
 		p.pend = append(p.pend, func(ans string) {
@@ -1682,10 +1949,57 @@ func c09DedupeChecks(ctx *core.Ctx, r *rand.Rand, d *drv.Driver, p *c09Pending, 
 	}
 }
 
+// ---------------------------------------------------------------- replay of a recorded case
+
+var c09CanonRe = regexp.MustCompile(`^((?:col\(opt=\w+,desc=\w+,nf=\w+\) )+)mcols=(\d+) storage=(\w+) pagebuf=(\d+) batches=\[([\d ]*)\] dedupe=(\w+) path=(\w+) lists=(\w+) seeks=\[([\d ]*)\] inputs=(.*)$`)
+
+// c09ParseCanon rebuilds a case from its canonical text (the "case" field of a failure detail)
+func c09ParseCanon(text string) (*c09Case, error) {
+	m := c09CanonRe.FindStringSubmatch(strings.TrimSpace(text))
+	if m == nil {
+		return nil, errors.New("not a canonical C09 case")
+	}
+	c := &c09Case{Storage: m[3], Path: m[7], Pattern: "replay", Dedupe: m[6] == "true", Lists: m[8] == "true"}
+	for _, cm := range regexp.MustCompile(`col\(opt=(\w+),desc=(\w+),nf=(\w+)\)`).FindAllStringSubmatch(m[1], -1) {
+		c.Cols = append(c.Cols, c09Col{Opt: cm[1] == "true", Desc: cm[2] == "true", NF: cm[3] == "true"})
+	}
+	c.MCols, _ = strconv.Atoi(m[2])
+	c.PageBuf, _ = strconv.Atoi(m[4])
+	for _, f := range strings.Fields(m[5]) {
+		v, _ := strconv.Atoi(f)
+		c.Batches = append(c.Batches, v)
+	}
+	for _, f := range strings.Fields(m[9]) {
+		v, _ := strconv.Atoi(f)
+		c.Seeks = append(c.Seeks, v)
+	}
+	for i, in := range strings.Split(m[10], "/") {
+		var rows []c09Row
+		if in != "-" {
+			for j, rt := range strings.Split(in, ",") {
+				row := c09Row{Inp: int32(i), Seq: int32(j)}
+				for cidx, vt := range strings.Split(rt, ";") {
+					if vt == "n" {
+						row.Null[cidx] = true
+					} else {
+						row.K[cidx], _ = strconv.ParseInt(vt, 10, 64)
+					}
+				}
+				rows = append(rows, row)
+			}
+		}
+		c.Inputs = append(c.Inputs, rows)
+	}
+	if len(c.Batches) == 0 {
+		return nil, errors.New("no batch sizes")
+	}
+	return c, nil
+}
+
 // ---------------------------------------------------------------- entry point
 
 func RunC09(ctx *core.Ctx) {
-	ctx.SetRule("k in 0..9 sorted inputs (empty, disjoint, touching, nested, identical, staggered, random key ranges; duplicates within and across inputs; asc/desc; nullable keys nulls first/last; one to three key columns, merge by a prefix or by all; large compound-key files whose first key column is shared by many rows across row-group and page boundaries) as sorted Buffers and as files (PageBufferSize 1..1MiB, with page index) x read batch sizes 1..300 x MergeRowGroups.Rows / MergeRowReaders / Writer.WriteRowGroup / CopyRows, with and without DropDuplicatedRows; chunked-source MergeRowReaders runs compared call by call with the Lean mirror; runLength and DedupeRowReader against mirror and spec; exhaustive small scope. Distinct by canonical case text, non-trivial = at least two non-empty inputs (merges) / at least two rows or batches (runLength, dedupe)")
+	ctx.SetRule("k in 0..9 sorted inputs (empty, disjoint, touching, nested, identical, staggered, random key ranges; duplicates within and across inputs; asc/desc; nullable keys nulls first/last; one to three key columns, merge by a prefix or by all; optionally a repeated payload column (lists of 0-4 values) that sorts before the key columns by name; forward SeekToRow histories on the merged rows; large compound-key files whose first key column is shared by many rows across row-group and page boundaries) as sorted Buffers and as files (PageBufferSize 1..1MiB, with page index) x read batch sizes 1..300 x MergeRowGroups.Rows / MergeRowReaders / Writer.WriteRowGroup / CopyRows, with and without DropDuplicatedRows; chunked-source MergeRowReaders runs compared call by call with the Lean mirror; runLength and DedupeRowReader against mirror and spec; exhaustive small scope. Distinct by canonical case text, non-trivial = at least two non-empty inputs (merges) / at least two rows or batches (runLength, dedupe)")
 
 	// F12 as a fixed corpus-like case so that it is reported deterministically
 	fixed := []*c09Case{
@@ -1711,6 +2025,36 @@ func RunC09(ctx *core.Ctx) {
 	}
 	for _, c := range fixed {
 		c09Check(ctx, c, nil)
+	}
+
+	// recorded cases first: corpus/C09/*.case hold the canonical text of one case each; -replay <file>
+	// (a replay json written by ./check, or a .case file) runs that case alone
+	replayOne := func(path string) bool {
+		b, err := os.ReadFile(path)
+		if err != nil {
+			return false
+		}
+		text := string(b)
+		var rec struct {
+			Detail struct {
+				Case string `json:"case"`
+			} `json:"detail"`
+		}
+		if json.Unmarshal(b, &rec) == nil && rec.Detail.Case != "" {
+			text = rec.Detail.Case
+		}
+		c, err := c09ParseCanon(text)
+		if err != nil {
+			return false
+		}
+		c09Check(ctx, c, nil)
+		return true
+	}
+	if ctx.Replay != "" && replayOne(ctx.Replay) {
+		return
+	}
+	for _, f := range ctx.CorpusFiles() {
+		replayOne(f)
 	}
 
 	workers := 14
